@@ -22,26 +22,37 @@ class FrozenClock:
     is replaced by a shim whose `datetime.now()` returns the frozen instant, so the real now() and
     today() run (and any state they keep is exercised)"""
 
-    def __init__(self, now_utc):
+    def __init__(self, now_utc, tick=None):
+        """`tick`: a timedelta by which the clock advances at every reading after the first (a
+        running clock: a call that reads it once sees `now_utc`; one that reads it again sees a
+        later instant — possibly on the other side of a midnight)"""
         self.now_utc = now_utc
+        self.tick = tick
+        self.reads = 0
         self.saved = None
 
     def __enter__(self):
         import types
-        frozen = self.now_utc
+        clock = self
+
+        def reading():
+            t = clock.now_utc if not clock.tick else clock.now_utc + clock.reads * clock.tick
+            clock.reads += 1
+            return t
 
         class _FrozenDT(datetime.datetime):
             @classmethod
             def now(cls, tz=None):
+                frozen = reading()
                 return frozen.astimezone(tz) if tz is not None else frozen.replace(tzinfo=None)
 
             @classmethod
             def utcnow(cls):
-                return frozen.replace(tzinfo=None)
+                return reading().replace(tzinfo=None)
 
             @classmethod
             def today(cls):
-                return frozen.replace(tzinfo=None)
+                return reading().replace(tzinfo=None)
         shim = types.ModuleType("datetime")
         for k in dir(datetime):
             if not k.startswith("__"):
@@ -96,6 +107,18 @@ def gen_norm(rng, n, tier="quick"):
                 d = now.date()
                 prev = (d, z)
                 p_omit = 0.75
+        tick = None
+        if p_omit is None and rng.random() < 0.12:
+            # a running clock that shows one second before a midnight of the zone at the first
+            # reading and three seconds more at each later one: the date is "today" at the moment
+            # of the call — one date for the whole answer
+            ld = d + datetime.timedelta(days=1)
+            if zones.in_span(ld) and zones.in_span(d):
+                mid = datetime.datetime(ld.year, ld.month, ld.day, tzinfo=z.tzinfo).astimezone(UTC)
+                now = (mid - datetime.timedelta(seconds=1)).replace(microsecond=0)
+                tick = datetime.timedelta(seconds=3)
+                p_omit = 1.0
+                prev = None
         by_name = z.iana is not None and rng.random() < 0.5
         tzarg = z.iana if by_name else z.tzinfo
         if not by_name and z.iana is not None and rng.random() < 0.2:
@@ -118,8 +141,15 @@ def gen_norm(rng, n, tier="quick"):
                 lon2 = (o.longitude + mins / 4.0 + 180.0) % 360.0 - 180.0   # east = earlier
                 o = _Obs(o.latitude, lon2, o.elevation)
         k = {9: 7, 10: 7}.get(k, k)       # the period functions three times as often
+        if rng.random() < 0.2:
+            # the zone left at its documented default (UTC): the call is then sometimes spelled
+            # without any tzinfo argument at all (see common.respell)
+            z = zones.fixed(0)
+            by_name, tzarg, ztz, tz_tok = False, z.tzinfo, z.tzinfo, "Zobj:%d" % z.id
         descr = {"observer": obs_descr(o), "zone": z.describe(), "tz_by_name": by_name,
                  "now": now.isoformat()}
+        if tick:
+            descr["clock"] = "running: +3 s at every reading after the first"
         if k in (0, 1, 2, 3):
             fn = ("dawn", "dusk", "sunrise", "sunset")[k]
             sp = rng.random()
@@ -146,11 +176,11 @@ def gen_norm(rng, n, tier="quick"):
                 else:
                     dep_tok, dep_arg = dn, DEP_ENUM[dn]
                 descr["depression"] = repr(dep_arg)
-                with FrozenClock(now):
+                with FrozenClock(now, tick):
                     st, v = call(getattr(sun, fn), o, darg, dep_arg, tzarg)
             else:
                 dep_tok = "civil"
-                with FrozenClock(now):
+                with FrozenClock(now, tick):
                     st, v = call(getattr(sun, fn), o, darg, tzarg)
             yield Case(fn, "pub_event %s %s %s %s %s %s" % (fn, obs_tok(o), dtok, dep_tok, tz_tok,
                                                             I(instant_us(now))),
@@ -160,7 +190,7 @@ def gen_norm(rng, n, tier="quick"):
             di = rng.choice([SunDirection.RISING, SunDirection.SETTING])
             darg = d if rng.random() < (1 - p_omit if p_omit else 0.6) else None
             wr = rng.random() < 0.7
-            with FrozenClock(now):
+            with FrozenClock(now, tick):
                 st, v = call(sun.time_at_elevation, o, el, darg, di, tzarg, wr)
             descr.update({"elevation": el, "dir": di.name, "date": repr(darg)})
             yield Case("time_at_elevation", "pub_tae %s %s %s %s %s %s %s" % (
@@ -180,7 +210,7 @@ def gen_norm(rng, n, tier="quick"):
                 darg = naive.replace(tzinfo=z2.tzinfo)
                 dtok = "A%d:%d" % (wall_us(naive), z2.id)
                 descr["date_zone"] = z2.describe()
-            with FrozenClock(now):
+            with FrozenClock(now, tick):
                 st, v = call(sun.midnight, o, darg, tzarg)
             descr["date"] = repr(darg)
             yield Case("midnight", "pub_midnight_dt %s %s %s %s" % (obs_tok(o), dtok, tz_tok, I(instant_us(now))),
@@ -188,7 +218,7 @@ def gen_norm(rng, n, tier="quick"):
         elif k == 5:
             fn = rng.choice(["noon", "midnight"])
             darg = d if rng.random() < (1 - p_omit if p_omit else 0.5) else None
-            with FrozenClock(now):
+            with FrozenClock(now, tick):
                 st, v = call(getattr(sun, fn), o, darg, tzarg)
             descr["date"] = repr(darg)
             yield Case(fn, "pub_%s %s %s %s %s" % (fn, obs_tok(o), I(darg.toordinal()) if darg else N,
@@ -201,7 +231,7 @@ def gen_norm(rng, n, tier="quick"):
             darg = d if rng.random() < (1 - p_omit if p_omit else 0.45) else None
             di = rng.choice([SunDirection.RISING, SunDirection.SETTING])
             descr.update({"function": fn, "date": repr(darg), "dir": di.name})
-            with FrozenClock(now):
+            with FrozenClock(now, tick):
                 if fn in ("daylight", "night"):
                     st, v = call(getattr(sun, fn), o, darg, tzarg)
                 elif fn in ("twilight", "golden_hour", "blue_hour"):
@@ -237,7 +267,7 @@ def gen_norm(rng, n, tier="quick"):
                 descr["date_zone"] = z2.describe()
             out_tz2 = darg.tzinfo if isinstance(darg, datetime.datetime) and darg.tzinfo is not None else ztz
             descr.update({"function": "night" if is_night else "daylight", "date": repr(darg)})
-            with FrozenClock(now):
+            with FrozenClock(now, tick):
                 st, v = call(sun.night if is_night else sun.daylight, o, darg, tzarg)
             if st == "ok":
                 exp = ("%s %s" % (inst_off(v[0], out_tz2), inst_off(v[1], out_tz2))
@@ -250,7 +280,7 @@ def gen_norm(rng, n, tier="quick"):
             # moon angles with the instant omitted (now, UTC) and the phase with the date omitted
             which = rng.choice(["azimuth", "elevation", "zenith", "phase"])
             descr.update({"function": "moon." + which, "instant": "omitted"})
-            with FrozenClock(now):
+            with FrozenClock(now, tick):
                 if which == "phase":
                     st, v = call(moon.phase)
                 else:
@@ -269,7 +299,7 @@ def gen_norm(rng, n, tier="quick"):
             which = rng.choice(["elevation", "zenith", "azimuth", "elevation"])
             # put the sun low for this observer half the time (refraction matters there)
             descr.update({"function": which, "with_refraction": wr, "instant": "omitted"})
-            with FrozenClock(now):
+            with FrozenClock(now, tick):
                 if which == "azimuth":
                     st, v = call(sun.azimuth, o)
                 elif rng.random() < 0.5:
@@ -289,7 +319,7 @@ def gen_norm(rng, n, tier="quick"):
             else:
                 dep_tok, dep_arg = dn, DEP_ENUM[dn]
             descr.update({"function": "sun", "date": repr(darg), "depression": repr(dep_arg)})
-            with FrozenClock(now):
+            with FrozenClock(now, tick):
                 st, v = call(sun.sun, o, darg, dep_arg, tzarg)
             if st == "ok":
                 exp = (" ".join(TZD(v[key], ztz) for key in ("dawn", "sunrise", "noon", "sunset", "dusk"))
@@ -315,7 +345,7 @@ def gen_norm(rng, n, tier="quick"):
                 darg = naive.replace(tzinfo=zones.docs(z2) if z2.iana and rng.random() < 0.3 else z2.tzinfo)
                 dtok = "A%d:%d" % (wall_us(naive), z2.id)
             descr["date"] = repr(darg)
-            with FrozenClock(now):
+            with FrozenClock(now, tick):
                 st, v = call(moon.moonrise if rise else moon.moonset, o, darg, tzarg)
             if st == "ok":
                 exp = N if v is None else TZD(v, ztz)
